@@ -66,7 +66,7 @@ fn prelude(style: usize) -> Vec<Stmt> {
         declare(o(2), obj(vec![pair("tag", int(2))])),
         declare(o(3), obj(vec![pair("tag", int(3)), pair("inner", o(1))])),
         declare(var("l"), list(vec![null()])),
-        declare(var("h"), null()),
+        declare(var("h"), prop(o(1), "m")),
     ]
 }
 
